@@ -15,6 +15,11 @@ CHECKS = {
   technique='TLA+ record-list spec ParticleArray.tla; TLC checks the permutation mechanisms against it (ParticleArrayMC.tla) and validates logged histories of real ParticleArray objects step by step (TraceParticleArray.tla)',
   text='Every public mutator is a TLA+ relation over the projected array state (order left open where the API does not promise one). TLC exhaustively checks that the swap-removal and align algorithms satisfy those relations on a small instance, and validates thousands of random API histories recorded from real ParticleArray objects: each call with its arguments and the full projection after it must satisfy the relation and the rectangularity / alignment / metadata invariants.',
   note='Trusts the projection function (carray lengths, values, stride/default dictionaries read through the public attributes). Values are small integers; resize() growth is filled by the harness. Histories up to 80 calls on two arrays plus a result array.'),
+ 'C18': dict(
+  cat='model_checking', design_ref='DESIGN.md section 5 (C18), 4.8',
+  technique='PlusCal/TLA+ spec Controller.tla model-checked by TLC (all interleavings, safety + deadlock + liveness); schedules of the real threads enumerated by a deterministic scheduler and every execution validated by TLC against ControllerProps.tla (verdict) and against the PlusCal model (TraceControllerM.tla, drift)',
+  text='TLC explores every interleaving of the solver thread with 1-2 interface threads at synchronisation-primitive granularity for a family of interface programs and checks ExactlyOnce, PauseHolds, WaitNotEarly, deadlock freedom and termination modulo the recorded findings. The real CommandManager is run on real threads under a scheduler that owns every Lock/Condition operation; schedules are enumerated (bounded deviations from a fair default, plus random prefixes) and each execution log is decided by TLC against the property layer; the primitive-level logs are also checked to be behaviours of the PlusCal model.',
+  note='Trusts the scheduler-controlled re-implementation of Lock/RLock/Condition (CPython semantics, FIFO notify). Bounds: 1-2 interface threads, programs of <= 4-5 calls, <= 2-3 deviations per schedule. Known findings are matched by signature over the final blocked configuration and the log.'),
 }
 
 NOT_APPLICABLE = {
